@@ -18,7 +18,7 @@ class LostAnchor(Exception):
 
 class Section:
     def __init__(self, kind, arg, lines, lineno):
-        self.kind = kind; self.arg = arg; self.lines = lines; self.lineno = lineno
+        self.kind = kind; self.arg = arg; self.lines = lines; self.lineno = lineno; self.props = []
 
 class Template:
     def __init__(self, name, path=None, strict=True, pid=None):
@@ -44,6 +44,10 @@ class Template:
                 if d == "assume": self.meta["assume"].append(" ".join(args)); continue
                 if d == "section":
                     cur = Section(args[0], args[1] if len(args) > 1 else None, [], ln); self.sections.append(cur); continue
+                if d == "props":
+                    if cur is not None and cur.kind == "code":
+                        cur.props.append((len(cur.lines) + 1, args)); cur.lines.append("")
+                    continue
                 if d in ("include-spec", "stub", "stub-assumed", "stub-trait", "extract"):
                     self.sections.append(Section(d, args, [], ln)); cur = None; continue
                 raise ValueError("%s:%d unknown directive %s" % (self.path, ln, d))
@@ -52,6 +56,11 @@ class Template:
                     raise ValueError("%s:%d text outside a section" % (self.path, ln))
                 continue
             # per-line carve-out tag:  <clause> //@finding <ID>
+            m = re.search(r"//@carveout\s+(\S+)\s*$", line)
+            if m:
+                if not strict:
+                    cur.lines.append(""); continue
+                line = line[:m.start()]
             m = re.search(r"//@(only|not)\s+([A-Za-z0-9_ ]+?)\s*$", line)
             if m:
                 ids = m.group(2).split()
@@ -108,7 +117,7 @@ class Built:
     def __init__(self):
         self.text = ""; self.ranges = []; self.notes = []; self.real_fns = []; self.ghost_fns = []
         self.stubs = []; self.clauses = 0; self.rewrites = {}; self.selfcheck = True; self.loops = 0
-        self.dropped = []; self.changed = set()
+        self.dropped = []; self.changed = set(); self.item_props = {}
 
 def _emit(b, chunks, text, label, real, extra=None):
     start = sum(c.count("\n") for c in chunks) + 1
@@ -174,7 +183,21 @@ def build(unit, strict=True, mutate=None, pid=None, degrade=(), extras=()):
             rel = s.arg or t.meta["source"]
             src = source_items(rel)
             toks, _ = tokenize("\n".join(s.lines))
+            def _props_for(item):
+                l0 = item.toks[0].line; best = None
+                for (ln, pr) in s.props:
+                    if ln < l0 and (best is None or ln > best[0]): best = (ln, pr)
+                # the directive must directly precede the item (only blank lines between)
+                if best and all(x.strip() == "" for x in s.lines[best[0]:l0 - 1]): return best[1]
+                return None
             for it in split_items(toks):
+                pr = _props_for(it)
+                if pr is not None:
+                    b.item_props[it.name if it.kind != "impl" else it.name.split(" for ")[-1].strip()] = pr
+                if it.kind in ("impl", "trait"):
+                    for m in impl_members(it)[2]:
+                        pm = _props_for(m)
+                        if pm is not None: b.item_props["%s::%s" % (it.name.split(" for ")[-1].strip(), m.name)] = pm
                 if is_ghost_item(it):
                     if it.kind == "fn": b.ghost_fns.append(it.name)
                     for k in range(it.attrs_end):
